@@ -111,20 +111,20 @@ theorem N3_pk2_to_cauchy (hc : c * c = 2) (h2 : (2:K) ≠ 0) (hJ : F.det ≠ 0) 
   obtain ⟨f00,f01,f02,f10,f11,f12,f20,f21,f22⟩ := F
   c23_rat hc with hd
 /-! ### corotational Cauchy stress `σ̃ = Rᵀ σ R` and right stretch `U` (stored `u`): `U S U = det U · σ̃` -/
-theorem N3_corot_to_pk2 (hc : c * c = 2) (h2 : (2:K) ≠ 0) (hU : M3.ofMandel c [u 0, u 1, u 2, u 3, u 4, u 5].det ≠ 0) :
-    M3.ofMandel c [u 0, u 1, u 2, u 3, u 4, u 5] * M3.ofMandel c (Gen.N3_corot_to_pk2_r c c3 fn s u) * M3.ofMandel c [u 0, u 1, u 2, u 3, u 4, u 5] = M3.ofMandel c [u 0, u 1, u 2, u 3, u 4, u 5].det • M3.ofMandel c [s 0, s 1, s 2, s 3, s 4, s 5] := by
+theorem N3_corot_to_pk2 (hc : c * c = 2) (h2 : (2:K) ≠ 0) (hU : (M3.ofMandel c [u 0, u 1, u 2, u 3, u 4, u 5]).det ≠ 0) :
+    (M3.ofMandel c [u 0, u 1, u 2, u 3, u 4, u 5]) * M3.ofMandel c (Gen.N3_corot_to_pk2_r c c3 fn s u) * (M3.ofMandel c [u 0, u 1, u 2, u 3, u 4, u 5]) = (M3.ofMandel c [u 0, u 1, u 2, u 3, u 4, u 5]).det • M3.ofMandel c [s 0, s 1, s 2, s 3, s 4, s 5] := by
   have hc0 : c ≠ 0 := c_ne_zero hc h2
   have hd : Gen.N3_corot_to_pk2_den0 c c3 fn s u ≠ 0 := by
-    have : Gen.N3_corot_to_pk2_den0 c c3 fn s u = M3.ofMandel c [u 0, u 1, u 2, u 3, u 4, u 5].det := by
+    have : Gen.N3_corot_to_pk2_den0 c c3 fn s u = (M3.ofMandel c [u 0, u 1, u 2, u 3, u 4, u 5]).det := by
       c23_unfold; c23_field hc
     rw [this]; exact hU
   c23_rat hc with hd
 /-- `det U · σ̃ = U S U` -/
-theorem N3_pk2_to_corot (hc : c * c = 2) (h2 : (2:K) ≠ 0) (hU : M3.ofMandel c [u 0, u 1, u 2, u 3, u 4, u 5].det ≠ 0) :
-    M3.ofMandel c [u 0, u 1, u 2, u 3, u 4, u 5].det • M3.ofMandel c (Gen.N3_pk2_to_corot_r c c3 fn p u) = M3.ofMandel c [u 0, u 1, u 2, u 3, u 4, u 5] * M3.ofMandel c [p 0, p 1, p 2, p 3, p 4, p 5] * M3.ofMandel c [u 0, u 1, u 2, u 3, u 4, u 5] := by
+theorem N3_pk2_to_corot (hc : c * c = 2) (h2 : (2:K) ≠ 0) (hU : (M3.ofMandel c [u 0, u 1, u 2, u 3, u 4, u 5]).det ≠ 0) :
+    (M3.ofMandel c [u 0, u 1, u 2, u 3, u 4, u 5]).det • M3.ofMandel c (Gen.N3_pk2_to_corot_r c c3 fn p u) = (M3.ofMandel c [u 0, u 1, u 2, u 3, u 4, u 5]) * M3.ofMandel c [p 0, p 1, p 2, p 3, p 4, p 5] * (M3.ofMandel c [u 0, u 1, u 2, u 3, u 4, u 5]) := by
   have hc0 : c ≠ 0 := c_ne_zero hc h2
   have hd : Gen.N3_pk2_to_corot_den0 c c3 fn p u ≠ 0 := by
-    have : Gen.N3_pk2_to_corot_den0 c c3 fn p u = M3.ofMandel c [u 0, u 1, u 2, u 3, u 4, u 5].det := by
+    have : Gen.N3_pk2_to_corot_den0 c c3 fn p u = (M3.ofMandel c [u 0, u 1, u 2, u 3, u 4, u 5]).det := by
       c23_unfold; c23_field hc
     rw [this]; exact hU
   c23_rat hc with hd
@@ -155,7 +155,7 @@ theorem N3_pk2_roundtrip' (hc : c * c = 2) (h2 : (2:K) ≠ 0) (hJ : F.det ≠ 0)
   have hJt : F.transpose.det ≠ 0 := by rw [det_transpose]; exact hJ
   exact mul_left_cancel_det hJ (mul_right_cancel_det hJt A)
 /-- `σ̃ ↦ S ↦ σ̃` -/
-theorem N3_corot_roundtrip (hc : c * c = 2) (h2 : (2:K) ≠ 0) (hU : M3.ofMandel c [u 0, u 1, u 2, u 3, u 4, u 5].det ≠ 0) :
+theorem N3_corot_roundtrip (hc : c * c = 2) (h2 : (2:K) ≠ 0) (hU : (M3.ofMandel c [u 0, u 1, u 2, u 3, u 4, u 5]).det ≠ 0) :
     M3.ofMandel c (Gen.N3_pk2_to_corot_r c c3 fn (Gen.N3_corot_to_pk2_rv c c3 fn s u) u) = M3.ofMandel c [s 0, s 1, s 2, s 3, s 4, s 5] := by
   have B := N3_pk2_to_corot c c3 fn (Gen.N3_corot_to_pk2_rv c c3 fn s u) u hc h2 hU
   have A := N3_corot_to_pk2 c c3 fn s u hc h2 hU
@@ -163,7 +163,7 @@ theorem N3_corot_roundtrip (hc : c * c = 2) (h2 : (2:K) ≠ 0) (hU : M3.ofMandel
   rw [e, A] at B
   exact smul_cancel hU B
 /-- `S ↦ σ̃ ↦ S` -/
-theorem N3_corot_roundtrip' (hc : c * c = 2) (h2 : (2:K) ≠ 0) (hU : M3.ofMandel c [u 0, u 1, u 2, u 3, u 4, u 5].det ≠ 0) :
+theorem N3_corot_roundtrip' (hc : c * c = 2) (h2 : (2:K) ≠ 0) (hU : (M3.ofMandel c [u 0, u 1, u 2, u 3, u 4, u 5]).det ≠ 0) :
     M3.ofMandel c (Gen.N3_corot_to_pk2_r c c3 fn (Gen.N3_pk2_to_corot_rv c c3 fn p u) u) = M3.ofMandel c [p 0, p 1, p 2, p 3, p 4, p 5] := by
   have A := N3_corot_to_pk2 c c3 fn (Gen.N3_pk2_to_corot_rv c c3 fn p u) u hc h2 hU
   have B := N3_pk2_to_corot c c3 fn p u hc h2 hU
@@ -230,24 +230,24 @@ theorem N2_pk2_to_cauchy (hc : c * c = 2) (h2 : (2:K) ≠ 0) (hJ : (plane f0 f1 
   obtain ⟨h1, h2'⟩ := plane_det_ne hJ
   c23_rat hc with h1
 /-! ### corotational Cauchy stress `σ̃ = Rᵀ σ R` and right stretch `U` (stored `u`): `U S U = det U · σ̃` -/
-theorem N2_corot_to_pk2 (hc : c * c = 2) (h2 : (2:K) ≠ 0) (hU : M3.ofMandel c [u 0, u 1, u 2, u 3].det ≠ 0) :
-    M3.ofMandel c [u 0, u 1, u 2, u 3] * M3.ofMandel c (Gen.N2_corot_to_pk2_r c c3 fn s u) * M3.ofMandel c [u 0, u 1, u 2, u 3] = M3.ofMandel c [u 0, u 1, u 2, u 3].det • M3.ofMandel c [s 0, s 1, s 2, s 3] := by
+theorem N2_corot_to_pk2 (hc : c * c = 2) (h2 : (2:K) ≠ 0) (hU : (M3.ofMandel c [u 0, u 1, u 2, u 3]).det ≠ 0) :
+    (M3.ofMandel c [u 0, u 1, u 2, u 3]) * M3.ofMandel c (Gen.N2_corot_to_pk2_r c c3 fn s u) * (M3.ofMandel c [u 0, u 1, u 2, u 3]) = (M3.ofMandel c [u 0, u 1, u 2, u 3]).det • M3.ofMandel c [s 0, s 1, s 2, s 3] := by
   have hc0 : c ≠ 0 := c_ne_zero hc h2
   have hu2 : u 2 ≠ 0 := by
     intro h; apply hU; c23_unfold; rw [h]; ring
   have hd : Gen.N2_corot_to_pk2_den0 c c3 fn s u ≠ 0 := by
-    have : Gen.N2_corot_to_pk2_den0 c c3 fn s u = M3.ofMandel c [u 0, u 1, u 2, u 3].det := by
+    have : Gen.N2_corot_to_pk2_den0 c c3 fn s u = (M3.ofMandel c [u 0, u 1, u 2, u 3]).det := by
       c23_unfold; c23_field hc
     rw [this]; exact hU
   c23_rat hc with hd
 /-- `det U · σ̃ = U S U` -/
-theorem N2_pk2_to_corot (hc : c * c = 2) (h2 : (2:K) ≠ 0) (hU : M3.ofMandel c [u 0, u 1, u 2, u 3].det ≠ 0) :
-    M3.ofMandel c [u 0, u 1, u 2, u 3].det • M3.ofMandel c (Gen.N2_pk2_to_corot_r c c3 fn p u) = M3.ofMandel c [u 0, u 1, u 2, u 3] * M3.ofMandel c [p 0, p 1, p 2, p 3] * M3.ofMandel c [u 0, u 1, u 2, u 3] := by
+theorem N2_pk2_to_corot (hc : c * c = 2) (h2 : (2:K) ≠ 0) (hU : (M3.ofMandel c [u 0, u 1, u 2, u 3]).det ≠ 0) :
+    (M3.ofMandel c [u 0, u 1, u 2, u 3]).det • M3.ofMandel c (Gen.N2_pk2_to_corot_r c c3 fn p u) = (M3.ofMandel c [u 0, u 1, u 2, u 3]) * M3.ofMandel c [p 0, p 1, p 2, p 3] * (M3.ofMandel c [u 0, u 1, u 2, u 3]) := by
   have hc0 : c ≠ 0 := c_ne_zero hc h2
   have hu2 : u 2 ≠ 0 := by
     intro h; apply hU; c23_unfold; rw [h]; ring
   have hd : Gen.N2_pk2_to_corot_den0 c c3 fn p u ≠ 0 := by
-    have : Gen.N2_pk2_to_corot_den0 c c3 fn p u = M3.ofMandel c [u 0, u 1, u 2, u 3].det := by
+    have : Gen.N2_pk2_to_corot_den0 c c3 fn p u = (M3.ofMandel c [u 0, u 1, u 2, u 3]).det := by
       c23_unfold; c23_field hc
     rw [this]; exact hU
   c23_rat hc with hd
@@ -278,7 +278,7 @@ theorem N2_pk2_roundtrip' (hc : c * c = 2) (h2 : (2:K) ≠ 0) (hJ : (plane f0 f1
   have hJt : (plane f0 f1 f2 f3 f4).transpose.det ≠ 0 := by rw [det_transpose]; exact hJ
   exact mul_left_cancel_det hJ (mul_right_cancel_det hJt A)
 /-- `σ̃ ↦ S ↦ σ̃` -/
-theorem N2_corot_roundtrip (hc : c * c = 2) (h2 : (2:K) ≠ 0) (hU : M3.ofMandel c [u 0, u 1, u 2, u 3].det ≠ 0) :
+theorem N2_corot_roundtrip (hc : c * c = 2) (h2 : (2:K) ≠ 0) (hU : (M3.ofMandel c [u 0, u 1, u 2, u 3]).det ≠ 0) :
     M3.ofMandel c (Gen.N2_pk2_to_corot_r c c3 fn (Gen.N2_corot_to_pk2_rv c c3 fn s u) u) = M3.ofMandel c [s 0, s 1, s 2, s 3] := by
   have B := N2_pk2_to_corot c c3 fn (Gen.N2_corot_to_pk2_rv c c3 fn s u) u hc h2 hU
   have A := N2_corot_to_pk2 c c3 fn s u hc h2 hU
@@ -286,7 +286,7 @@ theorem N2_corot_roundtrip (hc : c * c = 2) (h2 : (2:K) ≠ 0) (hU : M3.ofMandel
   rw [e, A] at B
   exact smul_cancel hU B
 /-- `S ↦ σ̃ ↦ S` -/
-theorem N2_corot_roundtrip' (hc : c * c = 2) (h2 : (2:K) ≠ 0) (hU : M3.ofMandel c [u 0, u 1, u 2, u 3].det ≠ 0) :
+theorem N2_corot_roundtrip' (hc : c * c = 2) (h2 : (2:K) ≠ 0) (hU : (M3.ofMandel c [u 0, u 1, u 2, u 3]).det ≠ 0) :
     M3.ofMandel c (Gen.N2_corot_to_pk2_r c c3 fn (Gen.N2_pk2_to_corot_rv c c3 fn p u) u) = M3.ofMandel c [p 0, p 1, p 2, p 3] := by
   have A := N2_corot_to_pk2 c c3 fn (Gen.N2_pk2_to_corot_rv c c3 fn p u) u hc h2 hU
   have B := N2_pk2_to_corot c c3 fn p u hc h2 hU
@@ -353,8 +353,8 @@ theorem N1_pk2_to_cauchy (hc : c * c = 2) (h2 : (2:K) ≠ 0) (hJ : (dg f0 f1 f2)
   obtain ⟨h0, h1, h2'⟩ := dg_det_ne hJ
   c23_rat0 hc
 /-! ### corotational Cauchy stress `σ̃ = Rᵀ σ R` and right stretch `U` (stored `u`): `U S U = det U · σ̃` -/
-theorem N1_corot_to_pk2 (hc : c * c = 2) (h2 : (2:K) ≠ 0) (hU : M3.ofMandel c [u 0, u 1, u 2].det ≠ 0) :
-    M3.ofMandel c [u 0, u 1, u 2] * M3.ofMandel c (Gen.N1_corot_to_pk2_r c c3 fn s u) * M3.ofMandel c [u 0, u 1, u 2] = M3.ofMandel c [u 0, u 1, u 2].det • M3.ofMandel c [s 0, s 1, s 2] := by
+theorem N1_corot_to_pk2 (hc : c * c = 2) (h2 : (2:K) ≠ 0) (hU : (M3.ofMandel c [u 0, u 1, u 2]).det ≠ 0) :
+    (M3.ofMandel c [u 0, u 1, u 2]) * M3.ofMandel c (Gen.N1_corot_to_pk2_r c c3 fn s u) * (M3.ofMandel c [u 0, u 1, u 2]) = (M3.ofMandel c [u 0, u 1, u 2]).det • M3.ofMandel c [s 0, s 1, s 2] := by
   have hc0 : c ≠ 0 := c_ne_zero hc h2
   have hu0 : u 0 ≠ 0 := by
     intro h; apply hU; c23_unfold; rw [h]; ring
@@ -364,8 +364,8 @@ theorem N1_corot_to_pk2 (hc : c * c = 2) (h2 : (2:K) ≠ 0) (hU : M3.ofMandel c 
     intro h; apply hU; c23_unfold; rw [h]; ring
   c23_rat0 hc
 /-- `det U · σ̃ = U S U` -/
-theorem N1_pk2_to_corot (hc : c * c = 2) (h2 : (2:K) ≠ 0) (hU : M3.ofMandel c [u 0, u 1, u 2].det ≠ 0) :
-    M3.ofMandel c [u 0, u 1, u 2].det • M3.ofMandel c (Gen.N1_pk2_to_corot_r c c3 fn p u) = M3.ofMandel c [u 0, u 1, u 2] * M3.ofMandel c [p 0, p 1, p 2] * M3.ofMandel c [u 0, u 1, u 2] := by
+theorem N1_pk2_to_corot (hc : c * c = 2) (h2 : (2:K) ≠ 0) (hU : (M3.ofMandel c [u 0, u 1, u 2]).det ≠ 0) :
+    (M3.ofMandel c [u 0, u 1, u 2]).det • M3.ofMandel c (Gen.N1_pk2_to_corot_r c c3 fn p u) = (M3.ofMandel c [u 0, u 1, u 2]) * M3.ofMandel c [p 0, p 1, p 2] * (M3.ofMandel c [u 0, u 1, u 2]) := by
   have hc0 : c ≠ 0 := c_ne_zero hc h2
   have hu0 : u 0 ≠ 0 := by
     intro h; apply hU; c23_unfold; rw [h]; ring
@@ -401,7 +401,7 @@ theorem N1_pk2_roundtrip' (hc : c * c = 2) (h2 : (2:K) ≠ 0) (hJ : (dg f0 f1 f2
   have hJt : (dg f0 f1 f2).transpose.det ≠ 0 := by rw [det_transpose]; exact hJ
   exact mul_left_cancel_det hJ (mul_right_cancel_det hJt A)
 /-- `σ̃ ↦ S ↦ σ̃` -/
-theorem N1_corot_roundtrip (hc : c * c = 2) (h2 : (2:K) ≠ 0) (hU : M3.ofMandel c [u 0, u 1, u 2].det ≠ 0) :
+theorem N1_corot_roundtrip (hc : c * c = 2) (h2 : (2:K) ≠ 0) (hU : (M3.ofMandel c [u 0, u 1, u 2]).det ≠ 0) :
     M3.ofMandel c (Gen.N1_pk2_to_corot_r c c3 fn (Gen.N1_corot_to_pk2_rv c c3 fn s u) u) = M3.ofMandel c [s 0, s 1, s 2] := by
   have B := N1_pk2_to_corot c c3 fn (Gen.N1_corot_to_pk2_rv c c3 fn s u) u hc h2 hU
   have A := N1_corot_to_pk2 c c3 fn s u hc h2 hU
@@ -409,7 +409,7 @@ theorem N1_corot_roundtrip (hc : c * c = 2) (h2 : (2:K) ≠ 0) (hU : M3.ofMandel
   rw [e, A] at B
   exact smul_cancel hU B
 /-- `S ↦ σ̃ ↦ S` -/
-theorem N1_corot_roundtrip' (hc : c * c = 2) (h2 : (2:K) ≠ 0) (hU : M3.ofMandel c [u 0, u 1, u 2].det ≠ 0) :
+theorem N1_corot_roundtrip' (hc : c * c = 2) (h2 : (2:K) ≠ 0) (hU : (M3.ofMandel c [u 0, u 1, u 2]).det ≠ 0) :
     M3.ofMandel c (Gen.N1_corot_to_pk2_r c c3 fn (Gen.N1_pk2_to_corot_rv c c3 fn p u) u) = M3.ofMandel c [p 0, p 1, p 2] := by
   have A := N1_corot_to_pk2 c c3 fn (Gen.N1_pk2_to_corot_rv c c3 fn p u) u hc h2 hU
   have B := N1_pk2_to_corot c c3 fn p u hc h2 hU
